@@ -154,6 +154,10 @@ class Spec3(Spec):
     def read_kw(self, v, rpad):
         return {}
 
+    def inner_classes(self, x):
+        """names of the modelled classes exercised inside this instance (records of a path, ...): counted as cases of theirs"""
+        return ()
+
 
 def run_spec3(ctx, spec, harvested, seen_cls, fail_cls, excluded_log):
     import codec_common as cc
@@ -185,6 +189,8 @@ def run_spec3(ctx, spec, harvested, seen_cls, fail_cls, excluded_log):
         ctx.count(("pl3-enc", nm, v, pad, toks[:3000]), nontrivial=True)
         ctx.hist("payload_class_x_origin", f"{nm}/{origin}")
         seen_cls[pynm] += 1
+        for inner_nm in getattr(spec, "inner_classes", lambda _x: ())(x):
+            seen_cls[inner_nm] += 1
         if a and a[0] in ("bad-request", "unknown-class"):
             ctx.disagree(f"{nm}: the model driver rejects the request", {"value": _short(toks), "answer": a[:1]})
             continue
@@ -219,8 +225,8 @@ def run_spec3(ctx, spec, harvested, seen_cls, fail_cls, excluded_log):
                 rt = spec.tokens(r[1])
             except (NotRep, skel.NotSkeleton) as e:
                 ctx.disagree(f"{nm}: re-read value is not representable in the model", {"value": _short(toks), "why": str(e)})
-                continue
-            if a[0] != "ok" or a[1] != rt or int(a[2]) != r[2]:
+                rt = None                      # the Python-only oracle below still runs (it counts this as "re-read differs")
+            if rt is not None and (a[0] != "ok" or a[1] != rt or int(a[2]) != r[2]):
                 ctx.disagree(f"{nm}: read() structure / cursor != model dec",
                              {"value": _short(toks), "py": _short(rt), "model": _short(a[1]) if len(a) > 1 else a,
                               "py_pos": r[2], "model_pos": a[2] if len(a) > 2 else None, "padding": pad})
@@ -392,9 +398,13 @@ def url_tokens(u):
 class PairSpec(Spec3):
     """head row + list / tail: tokens given by a function"""
 
-    def __init__(self, name, getK, toks, gen, excluded=None, at_end=False, offsets=(0, 1, 3, 4, 7, 8, 12), pads=None, write_kw=None):
+    def __init__(self, name, getK, toks, gen, excluded=None, at_end=False, offsets=(0, 1, 3, 4, 7, 8, 12), pads=None, write_kw=None,
+                 inner=None):
         self.name, self._getK, self._toks, self._gen, self._excl, self.at_end, self.offsets = name, getK, toks, gen, excluded, at_end, offsets
-        self._pads, self._wkw = pads, write_kw
+        self._pads, self._wkw, self._inner = pads, write_kw, inner
+
+    def inner_classes(self, x):
+        return self._inner(x) if self._inner else ()
 
     def K(self):
         return self._getK()
@@ -1187,6 +1197,20 @@ def path_item_tokens(it):
     raise NotRep("not a path record: " + nm)
 
 
+def path_record_classes(items):
+    """the record classes (and their bases Subpath / Knot) that occur in a path, at any depth: each is exercised by the case"""
+    out = set()
+    for it in items:
+        nm = type(it).__name__
+        out.add(nm)
+        if nm in ("ClosedPath", "OpenPath"):
+            out.add("Subpath")
+            out |= path_record_classes(list(it))
+        elif nm in ("ClosedKnotLinked", "ClosedKnotUnlinked", "OpenKnotLinked", "OpenKnotUnlinked"):
+            out.add("Knot")
+    return out
+
+
 def gen_knot(rng, K=None):
     V = _VEC()
     K = K or rng.choice([V.ClosedKnotLinked, V.ClosedKnotUnlinked, V.OpenKnotLinked, V.OpenKnotUnlinked])
@@ -1287,10 +1311,11 @@ def unit9_specs():
     V = _VEC
     return [
         PairSpec("Path", lambda: V().Path, lambda x: t_list(list(x), path_item_tokens), gen_paths, excluded=lambda x: path_excluded(list(x)),
-                 at_end=True, pads=[(1, 4, None), (1, 1, None)], offsets=(0, 1, 2, 4, 25, 26, 27, 28, 52)),
+                 at_end=True, pads=[(1, 4, None), (1, 1, None)], offsets=(0, 1, 2, 4, 25, 26, 27, 28, 52),
+                 inner=lambda x: path_record_classes(list(x))),
         PairSpec("VectorMaskSetting", lambda: V().VectorMaskSetting, vms_tokens, gen_vms,
                  excluded=lambda x: ("version-not-3" if x.version != 3 else path_excluded(list(x.path))), at_end=True,
-                 offsets=(0, 3, 4, 7, 8, 9, 10, 33, 34)),
+                 offsets=(0, 3, 4, 7, 8, 9, 10, 33, 34), inner=lambda x: path_record_classes(list(x.path)) | {"Path"}),
         PairSpec("VectorStrokeContentSetting", lambda: V().VectorStrokeContentSetting, vscs_tokens, gen_vscs,
                  excluded=lambda x: ("4s-field-not-4-bytes" if len(x.key) != 4 else desc_excluded(x)),
                  pads=[(1, 4, None), (1, 1, None)], offsets=(0, 3, 4, 7, 8, 12, 16)),
